@@ -24,7 +24,7 @@ PROP = 'C14'
 LEAN_MODULES = ['Femio.Props.C14']
 THEOREMS = ['C14_mean_of_nodes', 'C14_mean_of_nodes_unknown_id', 'C14_affine_at_centroid', 'C14_mean_row_stochastic',
             'C14_incidence_of_mesh', 'C14_constants', 'C14_bounds', 'C14_weights_prop_size', 'C14_effective_colsum', 'C14_effective_total']
-PARTIAL = ['order1_only=True (first-order nodes of tet2 only) is exercised by the oracle, not modelled',
+PARTIAL = ['order1_only=True / an explicit incidence= matrix (first-order nodes of tet2 only) is exercised by the oracle, not modelled',
            'convert_nodal2elemental without calc_average (plain gather / ravel) is covered by the gather lemma only']
 RULE = ('seeded meshes (tri, quad, tri+quad, tet, tet2, hex, prism, pyr, hex+prism+pyr; affine / jittered; voids; unreferenced '
         'nodes; ids dense / sparse / large / huge / prefix-like; storage ascending / descending / shuffled; type blocks '
@@ -32,6 +32,12 @@ RULE = ('seeded meshes (tri, quad, tri+quad, tet, tet2, hex, prism, pyr, hex+pri
         '{nodal->elemental, elemental->nodal mean with implicit / explicit / False weights, effective}; plus histories on one '
         'object: named nodal field converted by name, overwritten through the public API, converted by name again; a case is one '
         '(mesh, conversion, weights, field) evaluation; non-trivial when the mesh has at least two elements sharing a node; '
+        'integer-valued nodal fields are handed over as int64 arrays every other round; tet2: order1_only=True and the same '
+        'conversion through an explicit incidence= matrix (first-order incidence, another node set than the connectivity); '
+        'stream `absolute-scale`: the same generator meshes scaled exactly by 2^-13 / 2^-10 / 2^10 (0.1 mm / 1 mm cells in metres, km '
+        'cells) x all e2n conversions (explicit weights scaled by s^d; every 4th mesh with incidence= the mesh\'s own incidence '
+        'matrix) + n2e of an affine field; stream `repeated-nodes`: hex / quad meshes with a random subset of elements collapsed by '
+        'repeating node ids (wedge, pyramid, triangle) x {effective, mean with False / explicit / implicit weights}; '
         'distinct = distinct (mesh, conversion, weights, field) content')
 ASSUMPTIONS = [
     'elements have positive metric and every node used by the laws touches an element (the row of an unreferenced node is an '
@@ -40,6 +46,13 @@ ASSUMPTIONS = [
     '(ragged array): counted in the "unsupported" stream, not a failure',
     'calculate_element_metrics has no branch for pyr (NotImplementedError): implicit weights on meshes with pyramids are '
     'counted in the "unsupported" stream',
+    'absolute scale: the laws are homogeneous of degree 0 in the element sizes, femio has no absolute threshold in either '
+    'conversion, so they are asserted unchanged on meshes scaled by 2^-13 .. 2^10 (tolerance relative to the field values only)',
+    'elements with repeated node ids (stream `repeated-nodes`): "its nodes" are the DISTINCT nodes of the element (femio\'s '
+    'incidence matrix is Boolean: a node listed twice is incident once) - effective: each distinct node receives value / '
+    '#distinct nodes and the grand total is conserved; mean: the element enters a node\'s average once with its size. '
+    'Collapsed hexes / quads have positive metric; treated as inside the quantifier ("every mesh with positive elements ... '
+    'hex"), counted separately; nodal -> elemental is not run on them ("mean of its own nodes" is ambiguous with a repeated node)',
     'float arithmetic: results agree with the exact rational value within 1e-9 * max|x| (2e-5 * max|x| when the implicit '
     'weights come from the float32 centroid kernels)',
 ]
